@@ -209,6 +209,13 @@ Proof.
   split; [unfold inreg; cbn; lia|]. repeat split; vm_compute; reflexivity.
 Qed.
 
+(* ---- tie to the source: the two width tables are TRANSLATED from level/palette.go (Gen/Funcs.v) *)
+From GoMC Require Gen.Funcs Proofs.C12_tie.
+Theorem C12_cfg_bits_translated : forall b g : Z,
+  Funcs.level_statesCfg_bits b g = cfg_bits (mkCfg KStates g) b /\
+  Funcs.level_biomesCfg_bits b g = cfg_bits (mkCfg KBiomes g) b.
+Proof. intros b g. split; [apply C12_tie.tie_statesCfg_bits | apply C12_tie.tie_biomesCfg_bits]. Qed.
+
 Print Assumptions C12_new.
 Print Assumptions C12_refines.
 Print Assumptions C12_get.
@@ -224,3 +231,4 @@ Print Assumptions C12_set_bad_index.
 Print Assumptions C12_set_bad_id_direct.
 Print Assumptions C12_failed_read_recoverable.
 Print Assumptions C12_pal_read_robust.
+Print Assumptions C12_cfg_bits_translated.
